@@ -114,17 +114,26 @@ def run(res):
         raise vlib.CheckError("extracted set_match and extracted brute_force disagree (contradicts c10_brute_force_agrees)")
     if st["disagreements"] == 0 and st["oracle_failures"] == 0:
         res.discharged.append("correspondence:set_match(verdict, pushed entry, order of predicate calls)")
+    # the same property one level up: set patterns through the real macro (predicate wiring, `_` and `..` handling)
+    name_m = "direct:set patterns through the real macro pass iff an assignment exists"
+    res.obligations.append(name_m)
+    mcases, mfailing = macro_level(res, 240 if res.tier == "quick" else 6000)
+    if not mfailing:
+        res.discharged.append(name_m)
     passes = sum(1 for a in impl if a.startswith("pass"))
     res.coverage.update({
         "evaluations": len(cases), "distinct_nontrivial": st["distinct_nontrivial"],
         "rule": "every boolean matrix up to %dx%d with both rest settings (exhaustive: %d cases) plus seeded random matrices up to 7x7 "
-                "with planted assignments; non-trivial = the search received at least one `false` answer (so order/backtracking matters)"
-                % ((3, 3, exhaustive) if res.tier == "quick" else (4, 4, exhaustive)),
+                "with planted assignments; non-trivial = the search received at least one `false` answer (so order/backtracking matters); plus %d set "
+                "patterns written through the real macro (arbitrary match matrices, wildcard pressure, with and without `..`), compiled and run"
+                % ((3, 3, exhaustive, len(mcases)) if res.tier == "quick" else (4, 4, exhaustive, len(mcases))),
         "samples": st["samples"], "exhaustive_part": exhaustive, "impl_pass": passes, "impl_fail": len(cases) - passes,
     })
 
 
-def fallback(res, build_error):
+def macro_level(res, n, build_error=""):
+    """set patterns written through the real macro (compiled by rustc, run): the assertion passes iff the extracted
+    specification (Spec.v: existence of a one-to-one assignment, by brute force, plus the length rule) says so"""
     import random
     import e2e
     import maclib
@@ -133,13 +142,16 @@ def fallback(res, build_error):
     vlib.build_model_runner()
     okm, outm = maclib.build_mac()
     if not okm:
-        raise vlib.CheckError("neither harness rt nor harness mac builds against /repo: " + build_error[-800:])
+        raise vlib.CheckError("harness mac does not build against /repo: " + (build_error or outm)[-800:])
     rng = random.Random(res.seed * 17 + 10)
-    cases = [semgen.set_stress_case(rng) for _ in range(600 if res.tier == "quick" else 6000)]
-    try:
-        cases = semstage.run_cases(cases, tag="c10fb")
-    finally:
-        e2e.cleanup("c10fb")
+
+    def compute():
+        cs = [semgen.set_stress_case(rng) for _ in range(n)]
+        try:
+            return semstage.run_cases(cs, tag="c10ml")
+        finally:
+            e2e.cleanup("c10ml")
+    cases = vlib.cached("c10macro", [res.seed, n], compute)
     failing = 0
     for c in cases:
         spec = c["model"]["frontier"]           # brute-force existence of an assignment (Spec.v), extracted
@@ -151,7 +163,16 @@ def fallback(res, build_error):
                 res.violation("failing-input", "set pattern %s on %s: the assertion %s but a one-to-one assignment %s"
                               % (c["pattern"], c["value_rust"], "passed" if c["real"]["verdict"] == "pass" else "failed",
                                  "does not exist" if spec != [] else "exists"),
-                              {"type": c["type"], "value": c["value_rust"], "pattern": c["pattern"], "rt_build_error": build_error[-600:]})
+                              {"type": c["type"], "value": c["value_rust"], "pattern": c["pattern"], "value_model": c["value_model"],
+                               "rt_build_error": build_error[-600:]})
+    res.streams["macro_level_sets"] = {"cases": len(cases), "failing": failing,
+                                       "real_pass": sum(1 for c in cases if c["real"] and c["real"]["verdict"] == "pass"),
+                                       "with_wildcard_and_rest": sum(1 for c in cases if "_" in c["pattern"].split("#(")[1] and ".." in c["pattern"])}
+    return cases, failing
+
+
+def fallback(res, build_error):
+    cases, failing = macro_level(res, 600 if res.tier == "quick" else 6000, build_error)
     res.obligations.append("correspondence:set_match(verdict, pushed entry, order of predicate calls)")
     res.streams["fallback_macro_level"] = {"cases": len(cases), "failing": failing}
     res.coverage.update({"evaluations": len(cases), "distinct_nontrivial": len({c["pattern"] + c["value_rust"] for c in cases}),
@@ -166,6 +187,19 @@ def fallback(res, build_error):
 def replay(res, path):
     import json
     v = json.load(open(path))
+    if "pattern" in v:
+        import e2e
+        import maclib
+        import semstage
+        vlib.build_model_runner()
+        maclib.build_mac()
+        try:
+            c = semstage.run_cases([{"type": v["type"], "value_rust": v["value"], "value_model": v["value_model"], "pattern": v["pattern"], "kinds": {}}], tag="c10r")[0]
+        finally:
+            e2e.cleanup("c10r")
+        bad = (c["model"]["frontier"] == []) != (c["real"]["verdict"] == "pass")
+        print("real:", c["real"]["verdict"], "specification:", "match" if c["model"]["frontier"] == [] else "no match", "->", "violation" if bad else "property holds on this input")
+        return 1 if bad else 0
     line = v.get("case_line") or v.get("first_disagreement", {}).get("case_line")
     ok, out = vlib.build_harness("rt")
     if not ok:
